@@ -100,6 +100,11 @@ type Client struct {
 	doneClosed bool
 	tid        int // logical thread the connection belongs to (-1: unknown); see goReg
 	adopted    bool
+	// StallAfter > 0: a client that stops reading: once that many reply bytes have been taken, the
+	// server's next write blocks (as on a full socket) until Unstall is called.
+	StallAfter int
+	stallCh    chan struct{}
+	Stalled    bool
 }
 
 // Waiting reports whether the server is blocked reading this connection (call at quiescence).
@@ -190,16 +195,60 @@ func (c *Client) GoAway() {
 
 func (c *Client) Write(p []byte) (int, error) {
 	c.mu.Lock()
-	defer c.mu.Unlock()
 	if c.closed {
+		c.mu.Unlock()
 		return 0, io.ErrClosedPipe
 	}
 	if c.gone {
+		c.mu.Unlock()
 		return 0, syscall.EPIPE
 	}
+	if c.StallAfter > 0 && len(c.Out)+len(p) > c.StallAfter && c.stallCh != nil {
+		// take what still fits, then wait like a writer on a full socket
+		room := c.StallAfter - len(c.Out)
+		if room < 0 {
+			room = 0
+		}
+		c.Out = append(c.Out, p[:room]...)
+		c.Stalled = true
+		ch := c.stallCh
+		c.mu.Unlock()
+		<-ch
+		c.mu.Lock()
+		c.Stalled = false
+		if c.closed {
+			c.mu.Unlock()
+			return room, io.ErrClosedPipe
+		}
+		c.Out = append(c.Out, p[room:]...)
+		c.mu.Unlock()
+		return len(p), nil
+	}
 	c.Out = append(c.Out, p...)
+	c.mu.Unlock()
 	return len(p), nil
 }
+
+// StopReading makes the client stop taking reply bytes after n more; Unstall lets it read on.
+func (c *Client) StopReading(n int) {
+	c.mu.Lock()
+	c.StallAfter = len(c.Out) + n
+	c.stallCh = make(chan struct{})
+	c.mu.Unlock()
+}
+
+func (c *Client) Unstall() {
+	c.mu.Lock()
+	if c.stallCh != nil {
+		close(c.stallCh)
+		c.stallCh = nil
+		c.StallAfter = 0
+	}
+	c.mu.Unlock()
+}
+
+// IsStalled reports whether the server is blocked writing to this client.
+func (c *Client) IsStalled() bool { c.mu.Lock(); defer c.mu.Unlock(); return c.Stalled }
 
 func (c *Client) Close() error {
 	c.mu.Lock()
@@ -546,6 +595,16 @@ func (s *Session) Do(op wire.Op) {
 	for i, part := range parts {
 		s.send(part, i == 0)
 	}
+}
+
+// FeedOp hands one op's bytes to the server without waiting for it to finish (for scenarios in
+// which the server is not expected to become idle on this connection).
+func (s *Session) FeedOp(op wire.Op) bool {
+	s.Ops = append(s.Ops, op)
+	if s.W.Cfg.App {
+		s.appMarks = append(s.appMarks, len(s.Cli.Out))
+	}
+	return s.Cli.Feed(wire.Encode(s.W.Cfg.Proto, op))
 }
 
 // DoPipelined sends several ops in one write.
